@@ -33,7 +33,20 @@ pub fn value_alphabet() -> Vec<(Value, Form)> {
         (Value::Null, Form::Native(0)), // u64::MAX as a native integer
         (Value::Null, Form::Native(4)), // Option::None
         (Value::Null, Form::Native(9)), // BTreeMap<&str, Vec<i32>>
+        // an object whose single member is named like the claim it is the value of ("$KEY" is replaced by
+        // the claim key when the claim is constructed): the builder wraps claims as {key: value} internally
+        (json!({"$KEY": "inner"}), Form::TupleStr),
+        (json!({"$KEY": {"$KEY": [1]}}), Form::TupleStr),
     ]
+}
+
+/// the concrete value for claim `key`: "$KEY" members are renamed to the key
+pub fn concrete(v: &Value, key: &str) -> Value {
+    match v {
+        Value::Object(o) => Value::Object(o.iter().map(|(k, x)| (if k == "$KEY" { key.to_string() } else { k.clone() }, concrete(x, key))).collect()),
+        Value::Array(a) => Value::Array(a.iter().map(|x| concrete(x, key)).collect()),
+        other => other.clone(),
+    }
 }
 
 pub fn typed_value(key: &str, v: u8) -> String {
@@ -64,7 +77,7 @@ pub fn expected_map(path: &[Op], values: &[(Value, Form)]) -> BTreeMap<String, V
     for op in path {
         match op {
             Op::Set(k, v) | Op::SetOwned(k, v) => {
-                let spec = ClaimSpec { key: CUSTOM_KEYS[*k].into(), value: values[*v].0.clone(), form: values[*v].1 };
+                let spec = ClaimSpec { key: CUSTOM_KEYS[*k].into(), value: concrete(&values[*v].0, CUSTOM_KEYS[*k]), form: values[*v].1 };
                 m.insert(CUSTOM_KEYS[*k].to_string(), spec.expected_json());
             }
             Op::SetKeyOnly(k) => {
@@ -92,13 +105,13 @@ pub fn replay_and_judge(proto: Proto, path: &[Op], values: &[(Value, Form)]) -> 
     let mut ops: Vec<BOp> = Vec::new();
     for op in path {
         ops.push(match op {
-            Op::Set(k, v) => BOp::Claim(ClaimSpec { key: CUSTOM_KEYS[*k].into(), value: values[*v].0.clone(), form: values[*v].1 }),
+            Op::Set(k, v) => BOp::Claim(ClaimSpec { key: CUSTOM_KEYS[*k].into(), value: concrete(&values[*v].0, CUSTOM_KEYS[*k]), form: values[*v].1 }),
             Op::SetOwned(k, v) => {
                 let f = match values[*v].1 {
                     Form::TupleStr => Form::TupleString,
                     other => other,
                 };
-                BOp::Claim(ClaimSpec { key: CUSTOM_KEYS[*k].into(), value: values[*v].0.clone(), form: f })
+                BOp::Claim(ClaimSpec { key: CUSTOM_KEYS[*k].into(), value: concrete(&values[*v].0, CUSTOM_KEYS[*k]), form: f })
             }
             Op::SetKeyOnly(k) => BOp::Claim(ClaimSpec { key: CUSTOM_KEYS[*k].into(), value: json!(""), form: Form::KeyOnly }),
             Op::Remove(k) => BOp::Remove(CUSTOM_KEYS[*k].into()),
